@@ -1474,5 +1474,6 @@ impl StoryState {
 
     pub(crate) fn reset_errors(&mut self) {
         self.current_errors.clear();
+        self.current_warnings.clear();
     }
 }
